@@ -199,7 +199,8 @@ def main(chk: core.Check) -> int:
                             "plus fixture hits; inputs numerically on the circle centre or with |dphi| within 1e-6 of pi are excluded as in the property")
     chk.assumptions += ["theorems are over the reals (Mathlib); IEEE rounding, libm and vector's polar/cartesian conversions are outside the model (compared with tolerance 1e-9 relative to the track scale)",
                         "sign convention rho = -alpha/kappa anchored on the reconstructed fixture tracks (hits within 3 cm of the described circle)"]
-    chk.prove()
+    hc.regen(chk)
+    chk.prove(modules=["C06", "HelixTie"])
     try:
         diffs = correspond_and_oracle(chk, n, n_obj)
         chk.coverage["traces_validated_against_impl"] = n
